@@ -1142,3 +1142,56 @@ multi('C20', 'scan-fused-into-the-chain-walk-one-step-behind', 'mutant', [
          "            if isinstance(element, WormGear) and element.self_locking:\n                self_locking = True\n"
          "            element = element.drives\n            elements.append(element)\n"),
     (PT, SCAN_OLD, "        self.__self_locking = self_locking\n")], 'C20.locking')
+_PWM_ALL_OLD = """        applied_rules = sum(
+            [pwm_value is not None for pwm_value in pwm_values]
+        )
+        if applied_rules >= 2:
+            raise ValueError(
+                "At least two rules are simultaneously applicable. Check PWM "
+                "rules conditions."
+            )
+        elif applied_rules == 1:
+            pwm = [
+                self._saturate_pwm(pwm_value)
+                for pwm_value in pwm_values if pwm_value is not None
+            ][0]
+        else:
+            pwm = 1
+"""
+benign('C14', 'arbitration-by-consuming-a-generator', PC, _PWM_ALL_OLD, """        applicable = (pwm_value for pwm_value in pwm_values if pwm_value is not None)
+        if (single := next(applicable, None)) is None:
+            pwm = 1
+        elif any(True for _ in applicable):
+            raise ValueError("At least two rules are simultaneously applicable. Check PWM rules conditions.")
+        else:
+            pwm = self._saturate_pwm(single)
+""")
+mutant('C14', 'arbitration-by-re-reading-a-list', PC, _PWM_ALL_OLD, """        applicable = [pwm_value for pwm_value in pwm_values if pwm_value is not None]
+        if (single := next(iter(applicable), None)) is None:
+            pwm = 1
+        elif any(True for _ in applicable):
+            raise ValueError("At least two rules are simultaneously applicable. Check PWM rules conditions.")
+        else:
+            pwm = self._saturate_pwm(single)
+""", 'C14.shape')
+multi('C14', 'reraising-handler-off-the-control-path', 'benign', [
+    (PC, "        super().add_rule(rule=rule)\n\n        self.__rules.append(rule)\n",
+         "        try:\n            super().add_rule(rule=rule)\n        except TypeError:\n            raise\n        else:\n            self.__rules.append(rule)\n")])
+_LOCK_SITE = ("        self._check_powertrain_is_locked()\n", "        self.__powertrain_is_locked = self._check_powertrain_is_locked()\n")
+_LOCK_SET = ("            self.__powertrain_is_locked = True\n            return\n", "            return True\n")
+_LOCK_REL_OLD = """        if motor.torque is not None:
+            if (motor.torque > NULL_TORQUE and motor.pwm > 0) or \\
+                    (motor.torque < NULL_TORQUE and motor.pwm < 0):
+                self.__powertrain_is_locked = False
+"""
+_LOCK_REL_NEW = """        released = motor.torque is not None and (
+            (motor.torque > NULL_TORQUE and motor.pwm > 0) or
+            (motor.torque < NULL_TORQUE and motor.pwm < 0)
+        )
+        return %s
+"""
+for _pid in ('C13', 'C03'):
+    multi(_pid, 'lock-decision-returned-by-conditional-expression', 'benign', [
+        (SV,) + _LOCK_SITE, (SV,) + _LOCK_SET, (SV, _LOCK_REL_OLD, _LOCK_REL_NEW % 'False if released else self.__powertrain_is_locked')])
+multi('C13', 'lock-decision-returned-with-branches-swapped', 'mutant', [
+    (SV,) + _LOCK_SITE, (SV,) + _LOCK_SET, (SV, _LOCK_REL_OLD, _LOCK_REL_NEW % 'self.__powertrain_is_locked if released else False')], 'C13')
